@@ -6,6 +6,7 @@ package vrt
 import (
 	"encoding/json"
 	"fmt"
+	"hash/fnv"
 	"os"
 	"sort"
 	"strconv"
@@ -22,21 +23,22 @@ type Violation struct {
 }
 
 type result struct {
-	Property      string         `json:"property"`
-	Shard         int            `json:"shard"`
-	Evaluations   int64          `json:"evaluations"`
-	Nontrivial    int64          `json:"distinct_nontrivial"`
-	States        int64          `json:"states"`
-	Transitions   int64          `json:"transitions"`
-	Traces        int64          `json:"traces_validated_against_impl"`
-	Classes       map[string]int64 `json:"classes"`
-	Samples       []any          `json:"samples"`
-	Violations    []*Violation   `json:"violations"`
-	Exhaustive    bool           `json:"exhaustive"`
-	Notes         []string       `json:"notes"`
-	Extra         map[string]any `json:"extra"`
-	Completed     bool           `json:"completed"`
-	ReplayMode    bool           `json:"replay_mode"`
+	Property    string           `json:"property"`
+	Shard       int              `json:"shard"`
+	Evaluations int64            `json:"evaluations"`
+	Nontrivial  int64            `json:"distinct_nontrivial"`
+	States      int64            `json:"states"`
+	Transitions int64            `json:"transitions"`
+	Traces      int64            `json:"traces_validated_against_impl"`
+	Classes     map[string]int64 `json:"classes"`
+	Samples     []any            `json:"samples"`
+	Violations  []*Violation     `json:"violations"`
+	Exhaustive  bool             `json:"exhaustive"`
+	Notes       []string         `json:"notes"`
+	Extra       map[string]any   `json:"extra"`
+	Completed   bool             `json:"completed"`
+	Distinct    []uint64         `json:"distinct_hashes"`
+	ReplayMode  bool             `json:"replay_mode"`
 }
 
 // R is handed to the harness body.
@@ -49,9 +51,10 @@ type R struct {
 	deadline time.Time
 	replay   json.RawMessage
 
-	mu     sync.Mutex
-	res    result
-	vio    map[string]*Violation
+	mu      sync.Mutex
+	res     result
+	vio     map[string]*Violation
+	dist    map[uint64]struct{}
 	expired bool
 }
 
@@ -107,6 +110,9 @@ func (r *R) flush() {
 		keys = append(keys, k)
 	}
 	sort.Strings(keys)
+	for h := range r.dist {
+		r.res.Distinct = append(r.res.Distinct, h)
+	}
 	r.res.Violations = r.res.Violations[:0]
 	for _, k := range keys {
 		r.res.Violations = append(r.res.Violations, r.vio[k])
@@ -170,7 +176,7 @@ func (r *R) Traces(n int)      { r.mu.Lock(); r.res.Traces += int64(n); r.mu.Unl
 
 // Class counts one case in an equivalence class; evidence lists every class with its count so
 // a reader can see that the interesting shapes were really among the enumerated inputs.
-func (r *R) Class(name string) { r.mu.Lock(); r.res.Classes[name]++; r.mu.Unlock() }
+func (r *R) Class(name string)         { r.mu.Lock(); r.res.Classes[name]++; r.mu.Unlock() }
 func (r *R) ClassN(name string, n int) { r.mu.Lock(); r.res.Classes[name] += int64(n); r.mu.Unlock() }
 
 // Sample keeps up to 6 samples per shard.
@@ -241,4 +247,22 @@ func Catch(f func()) (panicked bool, val any) {
 	}()
 	f()
 	return
+}
+
+// DeadlineTime returns the soft deadline (zero = none).
+func (r *R) DeadlineTime() time.Time { return r.deadline }
+
+// Distinct records a case identity; the driver unions the identities of all shards and adds
+// their number to distinct_nontrivial (use it when shards may meet the same case).
+func (r *R) Distinct(key string) {
+	h := fnv.New64a()
+	h.Write([]byte(key))
+	r.mu.Lock()
+	if r.dist == nil {
+		r.dist = map[uint64]struct{}{}
+	}
+	if len(r.dist) < 200000 {
+		r.dist[h.Sum64()] = struct{}{}
+	}
+	r.mu.Unlock()
 }
